@@ -117,10 +117,12 @@ def refresh_rule(repo: Repo, rep: Report, rid: str) -> None:
     rep.floor(rid, "derived attributes", len(D), 12)
     # values: methods regenerated from the *new* field names; size/alignment from the calculator (C04.R2)
     src = {k: norm(v[0].ast.value) for k, v in assigns.items()}
-    rep.check(src.get("fields") == "lookup" and src.get("lookup") == "raw_lookup" and src.get("__fields__") == "fields", rid, f"{fi.key}:lookups",
-              "fields/lookup/__fields__ from the new list", f"lookup tables wired as {dict((k, src.get(k)) for k in ('fields', 'lookup', '__fields__'))}", fi.loc())
+    roles = update_fields_roles(fi)
+    rep.check(roles["ok"] and src.get("__fields__") == roles["fields"], rid, f"{fi.key}:lookups",
+              "classdict['fields'] is the folded name table, classdict['lookup'] the raw one, both filled from the new field list; __fields__ is the list itself",
+              f"lookup tables wired as {dict((k, src.get(k)) for k in ('fields', 'lookup', '__fields__'))}: {roles['why']}", fi.loc())
     recompile = [c for c in walk_body(fi.node.body) if isinstance(c, ast.Call) and call_name(c) == "compile_read"]
-    rep.check(len(recompile) == 1 and norm(recompile[0].args[0]) == "fields", rid, f"{fi.key}:recompile", "the reader is recompiled from the new field list",
+    rep.check(len(recompile) == 1 and norm(recompile[0].args[0]) == roles["fields"], rid, f"{fi.key}:recompile", "the reader is recompiled from the new field list",
               "recompilation does not use the new field list", fi.loc())
     cm = repo.func("types/structure.py", "StructureMetaType.commit")
     loops = [f for f in walk_body(cm.node.body) if isinstance(f, ast.For)]
@@ -195,6 +197,46 @@ def selfref_rule(repo: Repo, rep: Report, rid: str) -> None:
               "the structure is no longer registered before its body is parsed: a member referring to the structure itself could not be resolved", fi.loc())
     ext = [n for n in g.nodes if n.kind == "stmt" and any(norm(c.func.value).endswith("__fields__") for c in node_calls(n, "extend"))]
     rep.check(len(ext) == 1, rid, f"{fi.key}:extend", "the pre-registered class is extended in place", "the pre-registered class is no longer extended in place", fi.loc())
+
+
+def update_fields_roles(fi) -> dict:
+    """Roles of _update_fields' locals, found by dataflow: the dict stored as classdict['fields'] must be filled, in the loop over the new field
+    list, with field._name -> field and with the members of anonymous structures; the dict stored as classdict['lookup'] with field._name -> field
+    for every field.  Names are whatever the code uses."""
+    fields = fi.params[1]
+    src: dict[str, ast.AST] = {}
+    for s_ in walk_body(fi.node.body):
+        if isinstance(s_, ast.Assign) and isinstance(s_.targets[0], ast.Subscript) and norm(s_.targets[0].value) == "classdict" and is_const(s_.targets[0].slice):
+            src.setdefault(const_value(s_.targets[0].slice), s_.value)
+    out = {"fields": fields, "folded": None, "raw": None, "ok": False, "why": ""}
+    fo, ra = src.get("fields"), src.get("lookup")
+    if not (isinstance(fo, ast.Name) and isinstance(ra, ast.Name)):
+        out["why"] = "classdict['fields'] / classdict['lookup'] are not local tables"
+        return out
+    out["folded"], out["raw"] = fo.id, ra.id
+    loops = [f for f in walk_body(fi.node.body) if isinstance(f, ast.For) and norm(f.iter) == fields and isinstance(f.target, ast.Name)]
+    if len(loops) != 1:
+        out["why"] = f"expected one loop over '{fields}'"
+        return out
+    loop, fv = loops[0], loops[0].target.id
+
+    def stores(table: str, stmts) -> list[ast.Assign]:
+        return [x for x in stmts if isinstance(x, ast.Assign) and isinstance(x.targets[0], ast.Subscript) and norm(x.targets[0].value) == table
+                and norm(x.targets[0].slice) == f"{fv}._name" and norm(x.value) == fv]
+
+    inner = list(walk_body(loop.body))
+    folded_store = stores(fo.id, inner)
+    folded_update = [c for c in inner if isinstance(c, ast.Call) and norm(c.func) == f"{fo.id}.update" and c.args and norm(c.args[0]) == f"{fv}.type.fields"]
+    raw_store = stores(ra.id, loop.body)  # unconditional: directly in the loop body
+    if not folded_store or not folded_update:
+        out["why"] = f"'{fo.id}' is not filled with both field._name -> field and the members of anonymous structures"
+    elif not raw_store:
+        out["why"] = f"'{ra.id}' does not record every field under its _name"
+    elif fo.id == ra.id:
+        out["why"] = "folded and raw table are the same object"
+    else:
+        out["ok"] = True
+    return out
 
 
 def run(repo: Repo, rep: Report, tier: str) -> None:
